@@ -184,6 +184,24 @@ def desugar(loc, relfile, fn_paths, rules, _pass=0, optional=()):
                     records.append({"fn": fp, "rule": "D30 for p in E { B }  =>  let s = E; let mut n = 0; while n < s.len() { let p = s[n]; n += 1; B }   (E is evaluated once to an indexable sequence of copyable items; Verus `for` has no `continue`)",
                                     "original": src[v["call"][0]:v["call"][1]], "rewritten": new})
                     continue
+                if v["rule"] == "D48":
+                    lhs = src[v["lhs"][0]:v["lhs"][1]]
+                    rhs = src[v["rhs"][0]:v["rhs"][1]]
+                    new = f"{{ let pv_or = {rhs}; {lhs} = {lhs} || pv_or; }}"
+                    rewrites.append((v["call"][0], v["call"][1], new))
+                    records.append({"fn": fp, "rule": "D48 L |= R (bool)  =>  { let r = R; L = L || r; }   (R is evaluated unconditionally, as with `|`)",
+                                    "original": src[v["call"][0]:v["call"][1]], "rewritten": new})
+                    continue
+                if v["rule"] == "D47":
+                    recv = src[v["recv"][0]:v["recv"][1]]
+                    pat = src[v["pat"][0]:v["pat"][1]]
+                    body = src[v["body"][0]:v["body"][1]]
+                    new = (f"{{ let mut pv_f: Option<usize> = None; let mut pv_q: usize = 0; while pv_q < {recv}.len() {{ let {pat} = &{recv}[pv_q]; "
+                           f"if {body} {{ pv_f = Some(pv_q); break; }} pv_q += 1; }} match pv_f {{ Some(pv_at) => Some(&mut {recv}[pv_at]), None => None }} }}")
+                    rewrites.append((v["call"][0], v["call"][1], new))
+                    records.append({"fn": fp, "rule": "D47 X.iter_mut().find(|p| C)  =>  { search loop for the first k with C for p = &X[k]; Some(&mut X[k]) or None }   (C only reads p)",
+                                    "original": src[v["call"][0]:v["call"][1]], "rewritten": new})
+                    continue
                 if v["rule"] == "D45":
                     pat = src[v["pat"][0]:v["pat"][1]]
                     recv = src[v["recv"][0]:v["recv"][1]]
